@@ -1009,12 +1009,12 @@ def check_C15(rep, tier, seed, replay):
 
 
 PROP_THEOREMS = {
-    "C01": ["C01_levels_above_10_behave_as_10"],
+    "C01": ["C01_levels_above_10_behave_as_10", "C01_level0_lossless_for_every_input_partial"],
     "C02": ["C02_counts_within_buffers"],
     "C10": ["C10_length_tables_inverse", "C10_distance_tables_inverse"],
     "C11": ["C11_window_limit_routing", "C11_declared_window"],
     "C12": ["C12_sync_marker_is_empty_stored_block"],
     "C14": ["C14_empty_output_refused", "C14_done_is_stable", "C14_nonfinish_after_finish_is_error"],
     "C15": ["C15_bound_formula", "C15_bound_monotone", "C15_level0_size_within_bound_partial", "C15_bound_allows_nine_bits_per_byte",
-            "C15_bound_dominates_miniz_formula"],
+            "C15_bound_dominates_miniz_formula", "C15_level0_output_within_bound"],
 }
